@@ -275,6 +275,26 @@ pub fn replay_case(c: &J) -> Result<(), String> {
             _ => Err(format!("set_atom_name({n:?}) on {} disagrees with the reference model (term now {})", init.show(), after.show())),
         };
     }
+    if c["op"].as_str() == Some("push_once") {
+        let init = R::from_json(&c["init"]);
+        let cs: Vec<R> = c["list"].as_array().map(|a| a.iter().map(R::from_json).collect()).unwrap_or_default();
+        let mut t = init.build();
+        let real = t.push_components(cs.iter().map(|c| c.build())).map_err(|_| ());
+        let after = R::canon_of_term(&t);
+        let expect: Result<R, ()> = match init.tag.shape() {
+            Shape::Seq | Shape::Image | Shape::Set => {
+                let mut x = init.canon();
+                x.kids.extend(cs.iter().map(|c| c.canon()));
+                Ok(x.canon())
+            }
+            _ => Err(()),
+        };
+        return match (real, expect) {
+            (Ok(()), Ok(m)) if after == m => Ok(()),
+            (Err(()), Err(())) if after == init.canon() => Ok(()),
+            _ => Err(format!("push_components on {} disagrees with the reference model (term now {})", init.show(), after.show())),
+        };
+    }
     let init = R::from_json(&c["init"]);
     let hist: Vec<Act> = c["history"].as_array().map(|a| a.iter().map(act_from_json).collect()).unwrap_or_default();
     replay_history(&init, &hist).map(|_| ())
@@ -285,7 +305,7 @@ pub fn run(run: &Run) {
         "initial states: one term per constructor (images at index 0/1/n and empty); actions: \
          set_atom_name over 26 strings (empty, signed, leading zeros, usize::MAX, overflow, padded, \
          hex, non-ASCII digit, dashed) and push_components over 8 lists (empty, 1, 2, duplicate, \
-         existing element, placeholder, compound); stateright BFS to depth 3 (5 thorough) over the \
+         existing element, placeholder, compound); one-step sweeps: old name x new name over 22 related names x 5 kinds; push of [x], [x,A], [A,x], [x,x] for a representative x of every constructor (and the target itself) onto every initial term; stateright BFS to depth 3 (5 thorough) over the \
          real term, deduplicated on its canonical form; every transition compared with the \
          reference model (outcome, post-state, get_atom_name; unchanged on Err); distinct = unique \
          canonical states reached",
@@ -371,5 +391,91 @@ pub fn run(run: &Run) {
     }
     run.eval(one_step);
     run.count("one_step_set_atom_name_cases", one_step);
+    // old name x new name: every pair over a family of names related by case, prefix, suffix,
+    // permutation, padding and length, on each of the five named atom kinds
+    let rel = ["ab", "aB", "Ab", "AB", "ab ", " ab", "abc", "a", "b", "ba", "ab-", "a-b", "é", "É", "e\u{301}", "ab\u{e0101}", "bird", "Bird", "BIRD", "0", "00", ""];
+    let mut rel_cases = 0u64;
+    for tag in [Tag::Word, Tag::IVar, Tag::DVar, Tag::QVar, Tag::Operator] {
+        for n1 in rel {
+            if n1.is_empty() {
+                continue;
+            }
+            for n2 in rel {
+                rel_cases += 1;
+                let init = R::atom(tag, n1);
+                let mut t = init.build();
+                let real = quiet_catch(AssertUnwindSafe(|| t.set_atom_name(n2).map_err(|_| ())));
+                let after = R::canon_of_term(&t);
+                let want = R { name: n2.to_string(), ..init.canon() };
+                let name = t.get_atom_name();
+                let bad = match real {
+                    Ok(Ok(())) => if after != want { Some(format!("succeeded, term is {} but should be {}", after.show(), want.show())) } else if name.as_deref() != Some(n2) { Some(format!("get_atom_name() = {name:?}, expected {n2:?}")) } else { None },
+                    Ok(Err(())) => Some("failed, should succeed".to_string()),
+                    Err(p) => Some(format!("panics: {p}")),
+                };
+                if let Some(b) = bad {
+                    run.violation(&format!("start {} ; set_atom_name({n2:?}) : {b}", init.show()), json!({"op": "set_name_once", "init": init.to_json(), "name": n2}), &[]);
+                }
+            }
+        }
+    }
+    run.eval(rel_cases);
+    run.count("old_name_new_name_pairs", rel_cases);
+    // wide one-step push: onto every initial term, every list [x], [x, A], [A, x], [x, x] where x
+    // ranges over one representative of EVERY constructor (so: a compound of the target's own
+    // constructor, of a sibling constructor, a statement, each atom kind), against the model
+    let reps = crate::universe::reps(&crate::fmts::ascii());
+    let a = R::word("A");
+    let mut wide_lists: Vec<Vec<R>> = vec![];
+    for x in &reps {
+        wide_lists.push(vec![x.clone()]);
+        wide_lists.push(vec![x.clone(), a.clone()]);
+        wide_lists.push(vec![a.clone(), x.clone()]);
+        wide_lists.push(vec![x.clone(), x.clone()]);
+    }
+    // and a compound of the target's constructor holding the target's own components
+    let mut push_cases = 0u64;
+    for init in &inits {
+        let mut lists = wide_lists.clone();
+        if !init.tag.is_atom() {
+            lists.push(vec![init.clone()]);
+            lists.push(vec![init.clone(), a.clone()]);
+            lists.push(vec![R { kids: vec![R::word("C"), R::word("D")], ..init.clone() }, a.clone()]);
+        }
+        for cs in &lists {
+            push_cases += 1;
+            let mut t = init.build();
+            let before = R::canon_of_term(&t);
+            let built: Vec<Term> = cs.iter().map(|c| c.build()).collect();
+            let real = quiet_catch(AssertUnwindSafe(|| t.push_components(built.into_iter()).map_err(|_| ())));
+            let after = R::canon_of_term(&t);
+            let expect: Result<R, ()> = match init.tag.shape() {
+                Shape::Seq | Shape::Image => {
+                    let mut x = init.canon();
+                    x.kids.extend(cs.iter().map(|c| c.canon()));
+                    Ok(x)
+                }
+                Shape::Set => {
+                    let mut x = init.canon();
+                    x.kids.extend(cs.iter().map(|c| c.canon()));
+                    Ok(x.canon())
+                }
+                _ => Err(()),
+            };
+            let bad = match (&real, &expect) {
+                (Ok(Ok(())), Ok(m)) => if &after != m { Some(format!("succeeded, term is {} but should be {}", after.show(), m.show())) } else { None },
+                (Ok(Err(())), Err(())) => if after != before { Some("failed but changed the term".to_string()) } else { None },
+                (Ok(Ok(())), Err(())) => Some(format!("succeeded (term now {}), should fail", after.show())),
+                (Ok(Err(())), Ok(m)) => Some(format!("failed, should succeed and give {}", m.show())),
+                (Err(p), _) => Some(format!("panics: {p}")),
+            };
+            if let Some(b) = bad {
+                let shown: Vec<String> = cs.iter().map(|c| c.show()).collect();
+                run.violation(&format!("start {} ; push_components({shown:?}) : {b}", init.show()), json!({"op": "push_once", "init": init.to_json(), "list": cs.iter().map(|c| c.to_json()).collect::<Vec<_>>()}), &[]);
+            }
+        }
+    }
+    run.eval(push_cases);
+    run.count("one_step_push_cases", push_cases);
     run.sample(json!({"init": inits[9].show(), "history": [describe(Act::Push(2)), describe(Act::SetName(0)), describe(Act::Push(4))]}));
 }
